@@ -2,6 +2,6 @@
     Only ExtrOcamlBasic; numbers stay the extracted inductives; no Extract Constant of ours. *)
 Require Extraction.
 Require Import ExtrOcamlBasic.
-From NV Require Import Machine.Dfa Machine.Sem Machine.BBisim Regex.Re Ref.Lang Ref.RefSem Ref.Sim Ref.RefCert.
+From NV Require Import Machine.Dfa Machine.Sem Machine.BBisim Regex.Re Ref.Lang Ref.RefSem Ref.Sim Ref.RefCert Ref.Unambig.
 Extraction Language OCaml.
-Extraction "refmachine.ml" sim_run sim_cert ref_table ref_spec start_tree start_tree_of to_stree options step_tree.
+Extraction "refmachine.ml" sim_run sim_cert ref_table ref_spec start_tree start_tree_of to_stree options step_tree unambig_run unambig_check amb_of_cfg succs_of cfg_eqb ref_fuel.
